@@ -208,7 +208,7 @@ impl BootstrapCacheStore {
     }
 
     /// Load cache data from disk
-    /// Make sure to have clean addrs inside the cache as we don't call craft_valid_multiaddr
+    /// Entries that are not clean addrs (see craft_valid_multiaddr) filed under their own peer id are dropped
     pub fn load_cache_data(cfg: &BootstrapCacheConfig) -> Result<CacheData> {
         // Try to open the file with read permissions
         let mut file = OpenOptions::new()
@@ -237,6 +237,17 @@ impl BootstrapCacheStore {
             );
             return Err(Error::FailedToParseCacheData);
         }
+
+        // Keep only the entries `add_addr` could have produced: an address in its crafted form, filed under the
+        // peer id it carries. Anything else comes from a damaged file and is dropped.
+        for (peer_id, addrs) in data.peers.iter_mut() {
+            addrs.0.retain(|bootstrap_addr| {
+                craft_valid_multiaddr(&bootstrap_addr.addr, false).as_ref()
+                    == Some(&bootstrap_addr.addr)
+                    && multiaddr_get_peer_id(&bootstrap_addr.addr).as_ref() == Some(peer_id)
+            });
+        }
+        data.peers.retain(|_, addrs| !addrs.0.is_empty());
 
         data.perform_cleanup(cfg);
 
